@@ -32,7 +32,30 @@ def main() -> int:
     mod = importlib.import_module(f"props.{a.prop.lower()}")
     try:
         if a.replay:
-            return mod.replay(Path(a.replay))
+            # a module's own replay re-runs the recorded failing inputs it knows how to rebuild; when it rebuilt none (inputs of a
+            # seed-determined stream, correspondence breaks only), the check is run again with the recorded seed and tier
+            import json
+
+            class _Tee:
+                def __init__(self, out):
+                    self.out, self.seen = out, False
+
+                def write(self, x):
+                    self.seen = self.seen or ("REPLAY" in x or "replay" in x)
+                    return self.out.write(x)
+
+                def flush(self):
+                    self.out.flush()
+            tee = _Tee(sys.stdout)
+            sys.stdout = tee
+            try:
+                rc = mod.replay(Path(a.replay))
+            finally:
+                sys.stdout = tee.out
+            if not tee.seen:
+                from vp.core import rerun_by_seed
+                rc = rerun_by_seed(a.prop, json.loads(Path(a.replay).read_text()))
+            return rc
         chk = Check(a.prop, a.tier, seed, getattr(mod, "MODULE", None))
         mod.run(chk)
         return chk.finish()
